@@ -67,7 +67,7 @@ SHUFFLES = ['shuffle', 'bitshuffle', None]
 MARGIN = 64
 FUZZ_SCRIPT = os.path.join(env.VERIF, 'fuzz', 'c14_fuzz.py')
 
-_extra = {'atheris_executions': 0, 'atheris_campaigns': 0, 'atheris_crash_artifacts': 0, 'e2e_asdf_cases': 0, 'chunks_fed': 0, 'decompress_calls': 0, 'reused_buffer_calls': 0}
+_extra = {'atheris_executions': 0, 'atheris_campaigns': 0, 'atheris_crash_artifacts': 0, 'e2e_asdf_cases': 0, 'chunks_fed': 0, 'decompress_calls': 0, 'reused_buffer_calls': 0, 'reentrant_calls': 0}
 _last = {'key': None, 'nt': False, 'classes': []}
 
 
@@ -334,7 +334,38 @@ def judge(payload, cbs, shuffle, chunking, types, slack):
         # bytes are only valid until the next chunk is requested
         _decompress_once(comp, _reused_buffer_reader([bytes(memoryview(c)) for c in chunks]), raw, int(slack), tail_margin, 'chunked(%d chunks, reused read buffer)' % len(chunks))
         _extra['reused_buffer_calls'] += 1
+        # re-entrancy: asdf hands out one BloscCompressor instance per process, so a second block can be decompressed on the same
+        # instance while this one is between two read chunks (another thread reading a lazily loaded array). Modelled
+        # deterministically: the chunk iterator itself runs a complete, chunked decompression of another stream on `comp` before it
+        # hands over the next chunk of this one. Neither result may be affected.
+        _decompress_once(comp, _reentrant_reader(comp, [bytes(memoryview(c)) for c in chunks]), raw, int(slack), tail_margin, 'chunked(%d chunks, another stream decompressed on the same instance between chunks)' % len(chunks))
+        _extra['reentrant_calls'] += 1
     return dict(nontrivial=nt, classes=sorted(cls))
+
+
+_nested = {}
+
+
+def _nested_stream(comp):
+    if 'stream' not in _nested:
+        pay = (np.arange(600, dtype=np.uint32) * 2654435761 % 251).astype(np.uint8)
+        pieces = list(comp.compress(memoryview(pay), compression_block_size=256))
+        _nested['pay'] = pay.tobytes()
+        _nested['stream'] = b''.join(bytes(memoryview(p)) for p in pieces)
+    return _nested['pay'], _nested['stream']
+
+
+def _reentrant_reader(comp, pieces):
+    pay, stream = _nested_stream(comp)
+    when = {0, 1, 2, len(pieces) // 2, len(pieces) - 2}
+    for i, p in enumerate(pieces):
+        yield p
+        if i in when and i < len(pieces) - 1:
+            out = np.zeros(len(pay) + 16, dtype=np.uint8)
+            cut = [stream[j : j + 7] for j in range(0, len(stream), 7)]
+            ret = call_repo(comp.decompress, iter(cut), memoryview(out)[: len(pay)], _sig='blsc-decompress-raised')
+            if ret != len(pay) or out[: len(pay)].tobytes() != pay or out[len(pay) :].any():
+                raise Violation('blsc-decompress-bytes', 'a decompression started on the same instance while another stream was between two chunks returned %r bytes / wrong bytes' % (ret,))
 
 
 def _reused_buffer_reader(pieces):
